@@ -1,10 +1,12 @@
 //! Verification seam (only built with `--cfg watchexec_verif`): in-process access to the CLI's
-//! argument normalisation, state and action logic.
+//! argument normalisation, state and action logic, and to `run_watchexec()` with two observation
+//! points (configuration assembled, runtime created). With no observer installed, nothing happens.
 
-use std::ffi::OsString;
+use std::{cell::RefCell, ffi::OsString};
 
 use clap::Parser;
 use miette::Result;
+use watchexec::{Config, Watchexec};
 
 pub use crate::{
 	config::make_config,
@@ -23,4 +25,42 @@ pub async fn args_from(argv: Vec<OsString>) -> Result<Args> {
 	args.events
 		.normalise(&args.command, &args.filtering, args.only_emit_events)?;
 	Ok(args)
+}
+
+/// Observer of `run_watchexec()` on the current thread.
+pub struct RunObserver {
+	/// Called with the complete configuration (filterer set), before the runtime is created.
+	pub configured: Box<dyn FnMut(&Config)>,
+	/// Called with the runtime, before the start-up event is sent and the main loop is entered.
+	pub runtime_created: Box<dyn FnMut(&Watchexec)>,
+}
+
+thread_local! {
+	static OBSERVER: RefCell<Option<RunObserver>> = const { RefCell::new(None) };
+}
+
+/// Install (or remove) the observer of the current thread.
+pub fn set_run_observer(o: Option<RunObserver>) {
+	OBSERVER.with(|i| *i.borrow_mut() = o);
+}
+
+pub(crate) fn configured(config: &Config) {
+	OBSERVER.with(|i| {
+		if let Some(o) = i.borrow_mut().as_mut() {
+			(o.configured)(config);
+		}
+	});
+}
+
+pub(crate) fn runtime_created(wx: &Watchexec) {
+	OBSERVER.with(|i| {
+		if let Some(o) = i.borrow_mut().as_mut() {
+			(o.runtime_created)(wx);
+		}
+	});
+}
+
+/// The CLI's `run_watchexec()`: configuration, filterer, runtime, start-up event, main loop.
+pub async fn run(args: Args, state: State) -> Result<()> {
+	crate::run_watchexec(args, state).await
 }
